@@ -20,6 +20,7 @@ from .values import (
     JSRegExp,
     JSBoundMethod,
     js_pow,
+    to_integer,
     to_string,
     to_number,
 )
@@ -31,6 +32,34 @@ from .errors import (
     MemoryLimitError,
     TimeLimitError,
 )
+
+
+# Largest element count (or byte length) the array constructors allocate
+_MAX_ARRAY_LENGTH = 2**28
+
+
+def _array_length(value: JSValue) -> int:
+    """The length given to `new Array(length)`: a non-negative integer."""
+    n = to_number(value)
+    if n != n or math.isinf(n) or n < 0 or n != int(n) or n > _MAX_ARRAY_LENGTH:
+        raise JSRangeError("Invalid array length")
+    return int(n)
+
+
+def _to_index(value: JSValue, what: str = "length") -> int:
+    """ToIndex for typed array and ArrayBuffer lengths and offsets."""
+    n = to_integer(value)
+    if n < 0 or n > _MAX_ARRAY_LENGTH:
+        raise JSRangeError(f"Invalid typed array {what}")
+    return n
+
+
+def _to_uint32(value: JSValue) -> int:
+    """ToUint32: NaN and the infinities are 0, everything else wraps modulo 2**32."""
+    n = to_number(value)
+    if n != n or math.isinf(n):
+        return 0
+    return int(n) & 0xFFFFFFFF
 
 
 class Context:
@@ -398,8 +427,12 @@ class Context:
         array_prototype._prototype = self._object_prototype
 
         def array_constructor(*args):
-            if len(args) == 1 and isinstance(args[0], (int, float)):
-                arr = JSArray(int(args[0]))
+            if (
+                len(args) == 1
+                and isinstance(args[0], (int, float))
+                and not isinstance(args[0], bool)
+            ):
+                arr = JSArray(_array_length(args[0]))
             else:
                 arr = JSArray()
                 for arg in args:
@@ -444,9 +477,9 @@ class Context:
                         result = self._call_function(comparator, [a, b])
                     else:
                         result = comparator(a, b)
-                    # Convert to integer for cmp_to_key
+                    # Only the sign matters (NaN counts as equal)
                     num = to_number(result) if result is not UNDEFINED else 0
-                    return int(num) if isinstance(num, (int, float)) else 0
+                    return 1 if num > 0 else -1 if num < 0 else 0
                 return default_compare(a, b)
 
             # Sort using Python's sort with custom key
@@ -512,19 +545,27 @@ class Context:
 
         def floor_fn(*args):
             x = to_number(args[0]) if args else float("nan")
+            if x != x or math.isinf(x):
+                return x
             return math.floor(x)
 
         def ceil_fn(*args):
             x = to_number(args[0]) if args else float("nan")
+            if x != x or math.isinf(x):
+                return x
             return math.ceil(x)
 
         def round_fn(*args):
             x = to_number(args[0]) if args else float("nan")
+            if x != x or math.isinf(x):
+                return x
             # JavaScript-style round (round half towards positive infinity)
             return math.floor(x + 0.5)
 
         def trunc_fn(*args):
             x = to_number(args[0]) if args else float("nan")
+            if x != x or math.isinf(x):
+                return x
             return math.trunc(x)
 
         def min_fn(*args):
@@ -552,14 +593,20 @@ class Context:
 
         def sin_fn(*args):
             x = to_number(args[0]) if args else float("nan")
+            if math.isinf(x):
+                return float("nan")
             return math.sin(x)
 
         def cos_fn(*args):
             x = to_number(args[0]) if args else float("nan")
+            if math.isinf(x):
+                return float("nan")
             return math.cos(x)
 
         def tan_fn(*args):
             x = to_number(args[0]) if args else float("nan")
+            if math.isinf(x):
+                return float("nan")
             return math.tan(x)
 
         def asin_fn(*args):
@@ -591,7 +638,10 @@ class Context:
 
         def exp_fn(*args):
             x = to_number(args[0]) if args else float("nan")
-            return math.exp(x)
+            try:
+                return math.exp(x)
+            except OverflowError:
+                return float("inf")
 
         def random_fn(*args):
             return random.random()
@@ -608,11 +658,9 @@ class Context:
 
         def imul_fn(*args):
             # 32-bit integer multiplication
-            a = int(to_number(args[0])) if args else 0
-            b = int(to_number(args[1])) if len(args) > 1 else 0
             # Convert to 32-bit signed integers
-            a = a & 0xFFFFFFFF
-            b = b & 0xFFFFFFFF
+            a = _to_uint32(args[0]) if args else 0
+            b = _to_uint32(args[1]) if len(args) > 1 else 0
             if a >= 0x80000000:
                 a -= 0x100000000
             if b >= 0x80000000:
@@ -633,8 +681,7 @@ class Context:
 
         def clz32_fn(*args):
             # Count leading zeros in 32-bit integer
-            x = int(to_number(args[0])) if args else 0
-            x = x & 0xFFFFFFFF
+            x = _to_uint32(args[0]) if args else 0
             if x == 0:
                 return 32
             count = 0
@@ -665,7 +712,10 @@ class Context:
 
         def expm1_fn(*args):
             x = to_number(args[0]) if args else float("nan")
-            return math.expm1(x)
+            try:
+                return math.expm1(x)
+            except OverflowError:
+                return float("inf")
 
         def log1p_fn(*args):
             x = to_number(args[0]) if args else float("nan")
@@ -823,9 +873,11 @@ class Context:
 
         def parseInt_fn(*args):
             s = to_string(args[0]) if args else ""
-            radix = int(to_number(args[1])) if len(args) > 1 else 10
+            radix = to_integer(args[1]) if len(args) > 1 else 10
             if radix == 0:
                 radix = 10
+            if radix < 2 or radix > 36:
+                return float("nan")
             s = s.strip()
             if not s:
                 return float("nan")
@@ -910,7 +962,8 @@ class Context:
 
         def fromCharCode_fn(*args):
             """String.fromCharCode - create string from char codes."""
-            return "".join(chr(int(to_number(arg))) for arg in args)
+            # Each argument is taken modulo 2**16 (ToUint16)
+            return "".join(chr(_to_uint32(arg) & 0xFFFF) for arg in args)
 
         string_constructor.set("fromCharCode", fromCharCode_fn)
 
@@ -1068,15 +1121,19 @@ class Context:
             arg = args[0]
             if isinstance(arg, (int, float)):
                 # new Int32Array(length)
-                return array_class(int(arg))
+                return array_class(_to_index(arg))
             elif isinstance(arg, JSArrayBuffer):
                 # new Int32Array(buffer, byteOffset?, length?)
                 buffer = arg
-                byte_offset = int(args[1]) if len(args) > 1 else 0
+                byte_offset = _to_index(args[1], "offset") if len(args) > 1 else 0
                 element_size = array_class._element_size
+                if byte_offset % element_size or byte_offset > buffer.byteLength:
+                    raise JSRangeError("Invalid typed array offset")
 
-                if len(args) > 2:
-                    length = int(args[2])
+                if len(args) > 2 and args[2] is not UNDEFINED:
+                    length = _to_index(args[2])
+                    if byte_offset + length * element_size > buffer.byteLength:
+                        raise JSRangeError("Invalid typed array length")
                 else:
                     length = (buffer.byteLength - byte_offset) // element_size
 
@@ -1121,7 +1178,7 @@ class Context:
         from .values import JSArrayBuffer
 
         def constructor_fn(*args):
-            length = int(args[0]) if args else 0
+            length = _to_index(args[0], "length") if args else 0
             return JSArrayBuffer(length)
 
         constructor = JSCallableObject(constructor_fn)
@@ -1173,9 +1230,11 @@ class Context:
     def _global_parseint(self, *args):
         """Global parseInt."""
         s = to_string(args[0]) if args else ""
-        radix = int(to_number(args[1])) if len(args) > 1 else 10
+        radix = to_integer(args[1]) if len(args) > 1 else 10
         if radix == 0:
             radix = 10
+        if radix < 2 or radix > 36:
+            return float("nan")
         s = s.strip()
         if not s:
             return float("nan")
